@@ -145,13 +145,25 @@ fn op_str(o: &Op, mats: &[Material]) -> String {
 thread_local! {
     /// (sync point name, action) — runs once when the reload on this thread reaches the point
     static MID: RefCell<Option<(&'static str, Box<dyn FnOnce()>)>> = const { RefCell::new(None) };
+    /// how many more times the named point is passed before the action runs (0 = at the first arrival)
+    static MID_SKIP: std::cell::Cell<usize> = const { std::cell::Cell::new(0) };
 }
 
 pub fn install_sync_hook() {
     anytls_rs::verif::install_sync(Some(Arc::new(|name: &'static str| {
         let act = MID.with(|m| {
             let mut g = m.borrow_mut();
-            if g.as_ref().map(|x| x.0 == name).unwrap_or(false) { g.take() } else { None }
+            if g.as_ref().map(|x| x.0 == name).unwrap_or(false) {
+                let skip = MID_SKIP.with(|c| c.get());
+                if skip > 0 {
+                    MID_SKIP.with(|c| c.set(skip - 1));
+                    None
+                } else {
+                    g.take()
+                }
+            } else {
+                None
+            }
         });
         if let Some((_, f)) = act {
             f();
@@ -330,11 +342,22 @@ async fn run_history(dir: &Path, mats: &[Material], h: &[Op], mid: Option<(&'sta
                 let st2 = State { dir: st.dir.clone(), cert: st.cert.clone(), key: st.key.clone() };
                 let mats2 = mats.to_vec();
                 let mop2 = *mop;
-                MID.with(|m| *m.borrow_mut() = Some((*point, Box::new(move || apply_disk(&mop2, &st2, &mats2)))));
+                // "2nd:<point>": the action runs when the point is reached for the SECOND time within this reload (a
+                // reload that reads its files again after a failed read)
+                let (pname, skip): (&'static str, usize) = match point.strip_prefix("2nd:") {
+                    Some(rest) => (rest, 1),
+                    None => (*point, 0),
+                };
+                MID_SKIP.with(|c| c.set(skip));
+                MID.with(|m| *m.borrow_mut() = Some((pname, Box::new(move || apply_disk(&mop2, &st2, &mats2)))));
                 mid_applied = Some(*mop);
             }
             let res = reloader.reload();
-            MID.with(|m| *m.borrow_mut() = None);
+            // an action that was armed but never ran (the point was not reached that often) changed nothing
+            if MID.with(|m| m.borrow_mut().take()).is_some() {
+                mid_applied = None;
+            }
+            MID_SKIP.with(|c| c.set(0));
             let cert_after = std::fs::read(&st.cert).ok().and_then(|c| denotes(&c, mats, false));
             let key_after = std::fs::read(&st.key).ok().and_then(|c| denotes(&c, mats, true));
             let (now, _conn) = match snapshot(&reloader).await {
@@ -830,6 +853,17 @@ pub fn run(tier: Tier) -> i32 {
                 let mut h = pre.clone();
                 h.push(Op::Reload);
                 jobs.push((h, Some((p, *mop))));
+            }
+        }
+    }
+    // ---- a reload that meets an I/O error on its first read of a file and (if it retries) reads again: the disk changes
+    // to a complete other pair when a read point is reached for the second time
+    for pre in [vec![Op::KeyIsDir], vec![Op::CertIsDir], vec![Op::DeleteKey], vec![Op::WriteCert(1), Op::KeyIsDir]] {
+        for p in ["2nd:tls.before_cert_read", "2nd:tls.between_cert_and_key", "2nd:tls.after_key_read"] {
+            for mop in [Op::WritePair(1), Op::WritePair(2), Op::WritePair(3)] {
+                let mut h = pre.clone();
+                h.push(Op::Reload);
+                jobs.push((h, Some((p, mop))));
             }
         }
     }
